@@ -296,8 +296,8 @@ class BaseEngine(abc.ABC):
                 # Copy the latest measured values in the RegRefs of p.
                 # We cannot copy from prev directly because it could be used in more than one
                 # engine.
-                for k, v in enumerate(self.samples):
-                    p.reg_refs[k].val = v
+                for k, v in (self.samples_dict or {}).items():
+                    p.reg_refs[k].val = v[-1]
 
             # bind free parameters to their values
             p.bind_params(args)
